@@ -22,7 +22,7 @@ from vmc.core import Outcome, Part
 from vmc import systems
 
 
-def audit_init(ss, out_bad, where, undisturbed=True, demand_success=None):
+def audit_init(ss, out_bad, where, undisturbed=True, demand_success=None, sig_by_owner=False):
     """Shared oracle. Returns observation dict."""
     tds = ss.TDS
     dae = ss.dae
@@ -43,7 +43,11 @@ def audit_init(ss, out_bad, where, undisturbed=True, demand_success=None):
     has_nan = bool(np.isnan(fg).any())
     if verdict is True and (resid >= 10 * tol or has_nan):
         i = int(np.nanargmax(np.abs(fg))) if not has_nan else int(np.flatnonzero(np.isnan(fg))[0])
-        out_bad(f'init_reports_success_with_residual:{where}', f'{where}: test_ok is True but |residual| = {resid:.3e} '
+        # attached-model combinations: the signature names the model whose equation carries the residual, so that one
+        # model defect is one finding whatever it is combined with
+        parts_ = str(dae.xy_name[i]).split()
+        key = parts_[1] if (sig_by_owner and len(parts_) >= 2) else where
+        out_bad(f'init_reports_success_with_residual:{key}', f'{where}: test_ok is True but |residual| = {resid:.3e} '
                 f'{"(NaN present) " if has_nan else ""}at {dae.xy_name[i]}')
     if verdict is False and resid < 0.1 * tol and not has_nan:
         out_bad(f'init_reports_failure_at_equilibrium:{where}', f'{where}: test_ok is False but |residual| = {resid:.3e}')
@@ -290,7 +294,7 @@ class Attach(Part):
             out.obs = dict(exc=type(e).__name__)
             return out
         tag = '+'.join(case) or 'base'
-        out.obs = dict(models=case, **audit_init(ss, bad, tag))
+        out.obs = dict(models=case, **audit_init(ss, bad, tag, sig_by_owner=True))
         out.transitions = 3
         return out
 
